@@ -89,6 +89,8 @@ REG["C05"] = {
 
 REG["C14"] = {
     "units": ["timeouts"], "kani_units": ["c14_timeout"],
+    "thorough_extra": ["replay"],
+    "quick_extra": ["replay"],
     "scope": "PARTIAL: (1) how the document limit is resolved — the three limit-resolving expressions of StatefulExecutor::execute_all and the one of the "
              "single-script executor, extracted verbatim (@expr): configured value or the default, an explicit 0 means no deadline, any other value means a deadline, and with a "
              "deadline there is always a remaining budget (an expired deadline never turns into 'no limit'); (2) 'whichever limit is reached first' — the ordering used by StatefulExecutor::execute_all to pick the effective timeout "
@@ -97,7 +99,7 @@ REG["C14"] = {
     "assumptions": ["the selection expression itself (vec![..].into_iter().filter(is_some).min()) is inside execute_all, out of reach: the harness applies "
                     "Option::min to the extracted struct, which is what Iterator::min folds with; anchor checked textually",
                     "Kani/CBMC; rustc's expansion of #[derive(PartialOrd, Ord)] is what is proved (the struct text incl. attributes is copied verbatim)"],
-    "not_decided": ["that the process is really aborted after that long (subprocess + kernel)", "skipped-vs-passed accounting after a timeout (bin/commands/test.rs)",
+    "not_decided": ["that the process is really aborted after that long (subprocess + kernel): BOUNDED stand-in only — verif-replay c14 runs seven real bash executions through StatefulExecutor + BashRunner (per-test 300 ms vs document 5 s and the reverse, each alone, document timeout 0, no timeout reached, both generous) and checks which limit is reported (Index / Total / none)", "skipped-vs-passed accounting after a timeout (bin/commands/test.rs)",
                     "the arithmetic of std::time::Instant (opaque shim: now/add/duration_since carry no contract)", "the value of the default limit"],
     "callsites": [("src/executors/stateful_executor.rs", ".into_iter().filter(|item| item.is_some()).min()")],
 }
@@ -163,6 +165,8 @@ REG["C06"] = {
 
 REG["C13"] = {
     "units": ["capture"],
+    "thorough_extra": ["replay"],
+    "quick_extra": ["replay"],
     "scope": "PARTIAL — only the last sentence of the property: 'The only transformations are the documented ones: every CR LF pair becomes LF unless keep_crlf is set (for outputs of "
              "any size), and ANSI escape sequences are removed only when strip_ansi_escaping is set.' newline::replace_crlf(bytes) == drop_cr(bytes) (left to right, a CR directly "
              "followed by LF is dropped, nothing else changes; recursion terminates: decreases bytes.len()); TestCase::render_output == rendered (CRLF step skipped iff keep_crlf == Some(true); "
@@ -173,8 +177,13 @@ REG["C13"] = {
         "strip_ansi_escapes::strip is uninterpreted (strip_ansi)",
         "stack depth of the recursion (one frame per CR LF pair) and running time are outside the contract",
     ],
-    "not_decided": ["that the shell receives the expression verbatim (template + bash)", "stdout/stderr separation and merge order (subprocess, pipes)",
-                    "per-test-case attribution of output in the single-script executor (divider parsing)", "exit code capture (how the status is obtained from the process)", "the single-script (Cram) executor's own path (divider parsing)"],
+    "not_decided": ["everything that happens in bash and in the kernel — that the shell receives the expression verbatim, that each stream is captured byte for byte and attributed to its test case "
+                    "(also by the single-script executor's divider parsing), the exit code, that state carried between test cases does not leak into later outputs: BOUNDED stand-in only — "
+                    "verif-replay c13 N runs real bash processes: 15 payloads (empty, no final LF, CR LF / bare CR / CR CR LF mixes, TAB, ANSI, invalid UTF-8, control bytes, emoji, blank lines, "
+                    "trailing CR) on stdout x two stderr payloads x exit codes 0 / 7 x keep_crlf unset / set through SubprocessRunner and through StatefulExecutor + BashRunner, all payloads in ONE script "
+                    "through BashScriptExecutor on either stream, nine texts with quotes / backslashes / `$` / globs / `{state_directory}` printed back, ANSI stripping on / off, output before a timeout, "
+                    "and a three-step sequence with pushd / export / alias / shopt state (quick N=1: 151 cases, 1.5 s)",
+                    "merge order of the combined stream"],
 }
 
 REG["C07"] = {
@@ -294,6 +303,20 @@ REG["C19"] = {
                     "yaml well-formed with one entry per outcome, empty diff for passing tests (quick N=2: 1 263 renderings; thorough N=4)"],
 }
 
+REG["C15"] = {
+    "units": ["skipcode"],
+    "thorough_extra": ["replay"],
+    "quick_extra": ["replay"],
+    "scope": "PARTIAL (small) — which exit code is the skip code: TestCaseConfig::get_skip_document_code returns the configured skip_document_code, else 80; the Markdown and the Cram "
+             "format defaults both set 80.",
+    "assumptions": ["derived Default of TestCaseConfig (R39 shim)"],
+    "not_decided": ["that a document with such an exit code is reported as skipped as a whole, and nothing else is (executors: interleaved with process spawning; reporting: src/bin/commands/test.rs): "
+                    "BOUNDED stand-in for the executors only — verif-replay c15 N runs real bash processes: every sequence of up to N test cases with exit codes from {0, 1, 80, 81}, skip code unset "
+                    "or configured 81, through StatefulExecutor + BashRunner and through BashScriptExecutor, must give ExecutionError::Skipped(index of the first test case that exits with its skip "
+                    "code) exactly when there is one, else every test case its own exit code (quick N=2: 80 executions, thorough N=3: 336)",
+                    "the accounting in commands/test.rs (every test case of the document skipped, none failed or passed, other documents unaffected, skipped after a timeout)"],
+}
+
 VX_NOTE = ("Trusted: Verus/Z3; the extractor's rewrite rules (DESIGN §4.2, each firing is logged in evidence.rewrites_fired); "
            "prelude.rs shims and assume_specifications (mechanically scanned into evidence.trusted_base); "
            "machine integers are NOT idealised (usize overflow is an obligation).")
@@ -342,6 +365,10 @@ LEVELS["C09"] = {"category": "proof", "technique": "Verus postconditions on extr
     "text": "Unbounded proof over all outcomes: what is written, and that every written output line reads back as an expectation matching exactly that line. Partial: body-line classification by "
             "LineParser and the document formats only by a bounded end-to-end enumeration labelled as such (with two known findings).",
     "design_ref": "DESIGN.md §5 C09", "note": VX_NOTE}
+LEVELS["C15"] = {"category": "proof", "technique": "Verus postconditions on extracted TestCaseConfig::get_skip_document_code and the two format defaults",
+    "text": "Unbounded (trivially: no loop) proof of which code is the skip code. A small part of C15; that the executors report a document as skipped exactly for that code only by a bounded "
+            "enumeration over real bash executions, labelled as such; the reporting in the binary is not decided.",
+    "design_ref": "DESIGN.md §5 C15", "note": VX_NOTE}
 LEVELS["C19"] = {"category": "proof", "technique": "Verus postcondition on extracted space_start_index and the two slicing expressions of higlight_tailing_spaces (char-boundary theory of prelude_str.rs)",
     "text": "Unbounded proof over all lines that the trailing-whitespace highlighter of the pretty renderer slices at char boundaries (no panic). A small part of C19; the rest only by a bounded "
             "enumeration over all five renderers, labelled as such.",
@@ -361,7 +388,6 @@ LEVELS["C07"] = {"category": "proof", "technique": "Verus: LineParser methods an
 
 NOT_APPLICABLE = [
     {"property_id": "C12", "reason": "a property of bash executing bash_runner.template; no Rust function's postcondition can state it (DESIGN §10)"},
-    {"property_id": "C15", "reason": "decision is interleaved with process spawning/TempDir/Instant inside execute_all; a modular contract would need almost the whole body behind external_body stubs (DESIGN §10)"},
     {"property_id": "C17", "reason": "reader is serde_yaml (external), writer is format!; an inverse law needs the parser's semantics (DESIGN §10)"},
     {"property_id": "C18", "reason": "filesystem effects and Drop of tempfile::TempDir across process exits; outside any function contract (DESIGN §10)"},
     {"property_id": "C20", "reason": "commands/test.rs + main.rs over real executions; what matters is the executor's interaction with the OS (DESIGN §10)"},
